@@ -522,7 +522,7 @@ theorem pascalGo_ident (b : Bool) : ∀ (cap : Bool) (s : Str), IdentStr s → I
           · exact hch
         · exact pascalGo_ident b false rest hrest c hc
 
-theorem toPascal_ident {s : Str} (h : IdentStr s) : IdentStr (Rename.toPascal s) := pascalGo_ident _ _ s h
+theorem toPascal_ident {U : UnicodeOps} {s : Str} (h : IdentStr s) : IdentStr (Rename.toPascal U s) := pascalGo_ident _ _ s h
 
 theorem identChar_ne_nl {c : Char} (h : identChar c = true) : c ≠ '\n' := by
   intro e; subst e; revert h; decide
